@@ -6,11 +6,12 @@ Import ListNotations.
 
 Theorem plan_names_wellformed f fs st ces umask mt cs : f <> FRpm ->
   oracle_okb fs st umask mt ces = true -> prep fs st ces umask (fmt_name f) mt = Ok cs -> envelope_C01 cs = true ->
+  named_root_ok f cs ->
   forall cl, In cl (check_names f (members_of (payload_of f mt cs))) -> cl = WParents.
 Proof.
-  intros NR OK H Env. destruct (plan_entries _ _ _ _ _ _ _ OK H) as (E & NL & _).
+  intros NR OK H Env RO. destruct (plan_entries _ _ _ _ _ _ _ OK H) as (E & NL & _).
   unfold envelope_C01 in Env. apply andb_true_iff in Env as [E1 E2]. rewrite forallb_forall in E1, E2.
-  apply names_wellformed; [exact NR| |exact NL].
+  apply names_wellformed; [exact NR| |exact NL|exact RO].
   intros c Hc. destruct (E c Hc) as (K & R & T). split; auto.
   intros D. specialize (E2 c Hc). rewrite D in E2. cbn [orb] in E2. apply negb_true_iff in E2.
   intros L. rewrite L in E2. discriminate.
